@@ -709,8 +709,18 @@ class BlePairing(AbstractPairing):
             # We had a successful decrypt, so we can update the state_num
             self.description.state_num = gsn
             char = self.accessories.aid(BLE_AID).characteristics.iid(iid)
+            if not char:
+                # We run inside the scanner callback so we must not raise
+                logger.debug("%s: Received notification for unknown iid: %s", self.name, iid)
+                return
 
-            results = {(BLE_AID, iid): {"value": from_bytes(char, value)}}
+            try:
+                decoded_value = from_bytes(char, value)
+            except (struct.error, ValueError) as ex:
+                logger.debug("%s: Failed to decode notification for iid %s: %s", self.name, iid, ex)
+                return
+
+            results = {(BLE_AID, iid): {"value": decoded_value}}
             logger.debug("%s: Received notification: results = %s", self.name, results)
 
             self._callback_listeners(results)
